@@ -360,8 +360,12 @@ def main(argv=None):
         if res.get('exhaustive') is not None:
             exhaustive_flags.append(bool(res['exhaustive']))
         for name, value in (res.get('extra') or {}).items():
-            if isinstance(value, (int, float)) and isinstance(extra.get(name, 0), (int, float)):
+            if isinstance(value, bool):
+                extra[name] = extra.get(name, True) and value
+            elif isinstance(value, (int, float)) and isinstance(extra.get(name, 0), (int, float)):
                 extra[name] = extra.get(name, 0) + value
+            elif isinstance(value, dict):
+                extra.setdefault(name, {}).update(value)
             else:
                 extra.setdefault(name, value)
 
